@@ -108,8 +108,19 @@ def check(ctx):
 def order_rules(ctx):
     prog = ctx.prog
     R3 = ctx.rule("R3", "hook lists keep declaration order, groups expanded in place; consumers get the full list filtered by their own family only")
-    for key in ("acmed::config::Config::do_get_hook", "acmed::config::Certificate::get_hooks", "acmed::config::Account::get_hooks"):
+    from .hook_table import EXPECT_OK, evaluated, hook_table, resolver
+    ht = hook_table(prog)
+    RES = resolver(prog).key
+    if evaluated(ht):
+        # evaluation-first: do_get_hook interpreted on the sample configuration (see hook_table.py)
+        gb = prog.must_body(RES)
+        for nm, want in sorted(EXPECT_OK.items()):
+            ctx.require(R3, ht.get(nm) == ("Ok", want), "%s:%s" % (gb.file, gb.line), "hook name `%s` resolves to %s in declaration order, groups expanded in place (evaluated: %s)" % (nm, want, ht.get(nm)),
+                        ["acmed::config::Config::do_get_hook", "resolved", nm])
+    for key in (RES, "acmed::config::Certificate::get_hooks", "acmed::config::Account::get_hooks"):
         b = prog.must_body(key)
+        if evaluated(ht) and key == RES:
+            continue
         sl = origins(b, {"l": 0, "p": []})
         # looking a hook / group DEFINITION up by name (`self.hook.iter().find(|h| h.name == name)`) is selection, not loss
         def lookup(c):
